@@ -68,24 +68,31 @@ def setup_project(rng, seed, with_stale=True):
     if r[0] != 'ok':
         return None
     dbrig.insert_rows(models, random.Random(seed))
-    stale = None
-    if with_stale:
-        stale = stale_spec(rng, vnames)
-        both = {'apps': [spec['apps'][0], stale]}
-        iso = dbrig.build_models(both)
-        try:
-            dbrig.create_tables({'yapp': iso['yapp']}, 'default')
-        except Exception:
-            return None
-        dbrig.insert_rows({'yapp': iso['yapp']}, random.Random(seed + 1))
-        from django_evolution.models import Version
-        ysig = dbrig.sig_from_models({'yapp': iso['yapp']}).get_app_sig('yapp')
-        v = Version.objects.current_version()
-        s = v.signature
-        s.add_app_sig(ysig)
-        v.signature = s
-        v.save()
+    stale = add_stale(rng, seed, spec) if with_stale else None
+    if with_stale and stale is None:
+        return None
     return spec, stale
+
+
+def add_stale(rng, seed, spec):
+    """tables, rows and signature entries of an app that is not installed (any more)"""
+    vnames = [m['name'] for m in spec['apps'][0]['models']]
+    stale = stale_spec(rng, vnames)
+    both = {'apps': [spec['apps'][0], stale]}
+    iso = dbrig.build_models(both)
+    try:
+        dbrig.create_tables({'yapp': iso['yapp']}, 'default')
+    except Exception:
+        return None
+    dbrig.insert_rows({'yapp': iso['yapp']}, random.Random(seed + 1))
+    from django_evolution.models import Version
+    ysig = dbrig.sig_from_models({'yapp': iso['yapp']}).get_app_sig('yapp')
+    v = Version.objects.current_version()
+    s = v.signature
+    s.add_app_sig(ysig)
+    v.signature = s
+    v.save()
+    return stale
 
 
 def owned_tables(app_spec):
@@ -167,7 +174,9 @@ def run(ctx):
             if left is not None and left['models']:
                 ctx.fail(None, 'after --purge the stale app still has signature entries: %s'
                          % [m['name'] for m in left['models']], rep)
-            for app in ('vapp', 'wapp'):
+            # every other app's entry - including the entries of installed apps that have no models - stays
+            for app in sorted((set(mid['sig']) | set(after['sig'])) - {'yapp'}):
+                ctx.count('purge:other_entry:%s' % ('empty' if not (mid['sig'].get(app) or {}).get('models') else 'models'))
                 if after['sig'].get(app) != mid['sig'].get(app):
                     ctx.fail(None, 'after --purge the signature entries of %s changed' % app, rep)
         else:
@@ -202,12 +211,37 @@ def run(ctx):
             after = state()
             compare(before, after, dropped, rep, ctx, mode)
             other = 'wapp' if target_app == 'vapp' else 'vapp'
-            if after['sig'].get(other) != before['sig'].get(other):
-                ctx.fail(None, '%s: the signature entries of %s changed' % (mode, other), rep)
+            for app in sorted((set(before['sig']) | set(after['sig'])) - {target_app}):
+                if after['sig'].get(app) != before['sig'].get(app):
+                    ctx.fail(None, '%s: the signature entries of %s changed' % (mode, app), rep)
             left = [m['name'] for m in after['sig'][target_app]['models']]
             want = [m['name'] for m in (new_spec['apps'][0] if target_app == 'vapp' else new_spec['apps'][1])['models']]
             if sorted(left) != sorted(want):
                 ctx.fail(None, '%s: signature entries of %s are %s, expected %s' % (mode, target_app, left, want), rep)
+            # a later purge of some other, stale app leaves the emptied-but-installed app's entry alone
+            if mode == 'delete_app':
+                stale = add_stale(ctx.rng, seed, {'apps': [vapp]})
+                if stale is None:
+                    continue
+                rep = dict(rep, stale=stale, mode='delete_app then purge')
+                mid = state()
+                r = evorig.run_command(execute=True, interactive=False, purge=True)
+                if r[0] != 'ok':
+                    ctx.count('purge_after_delete_app:failed')
+                    continue
+                after2 = state()
+                ctx.count('purge_after_delete_app')
+                compare(mid, after2, owned_tables(stale), rep, ctx, 'evolve --purge after DeleteApplication')
+                for app in sorted((set(mid['sig']) | set(after2['sig'])) - {'yapp'}):
+                    if after2['sig'].get(app) != mid['sig'].get(app):
+                        ctx.fail(None, 'after --purge the signature entry of %s (%s) changed'
+                                 % (app, 'empty, app installed' if not mid['sig'][app]['models'] else 'with models'), rep)
+                r = evorig.run_evolver()
+                bk = evorig.bookkeeping()
+                labels = [tuple(e[:2]) for e in bk['evolutions']]
+                if len(labels) != len(set(labels)):
+                    ctx.fail(None, 'an evolution is recorded twice after the purge: %s'
+                             % sorted(x for x in set(labels) if labels.count(x) > 1), rep)
 
 
 def replay(ctx, obj):
